@@ -290,3 +290,40 @@ End Chunks.
    chunk itself (Gen/FactsStartup.v chunk_loops_bind_their_chunk) *)
 Definition cs_chunked_stmts (own : bool) (n : nat) (f : N -> cs_stmt) (ids : list N) : list cs_stmt :=
   map f (concat (if own then cs_chunks n ids else cs_chunks_whole_bound n ids)).
+
+(* ---- inside store.Set: the cache file is written piece by piece ---- *)
+(* store/disk.go Set opens the file and issues one write call for the header, one for the nonce and one per sealed block;
+   the process can die between two calls and inside one, so [pieces] is ANY way of cutting the new file content into
+   consecutive writes.  [trunc] = the file is opened with O_TRUNC (Gen/FactsStartup.v store_set_truncates); without it
+   the previous content stays where it is not overwritten.  [B] = a byte of the file, [Msg] = a message literal. *)
+Section SetWrites.
+  Context {B Msg : Type}.
+
+  Definition cs_file_open (trunc : bool) (old : list B) : list B := if trunc then [] else old.
+
+  (* one write call at offset [off] of the open file: replaces what is there, extends the file at its end *)
+  Definition cs_file_write (off : nat) (piece file : list B) : list B :=
+    firstn off file ++ piece ++ skipn (off + length piece) file.
+
+  Fixpoint cs_file_writes (off : nat) (pieces : list (list B)) (file : list B) : list B :=
+    match pieces with
+    | [] => file
+    | p :: ps => cs_file_writes (off + length p) ps (cs_file_write off p file)
+    end.
+
+  (* the file on disk when the process dies after [k] write calls of a Set over a file that contained [old]
+     (k >= length pieces: Set went through) *)
+  Definition cs_set_file (trunc : bool) (old : list B) (pieces : list (list B)) (k : nat) : list B :=
+    cs_file_writes 0 (firstn k pieces) (cs_file_open trunc old).
+
+  (* what Get answers for a file: [strict] decodes and reports a file that ends early as an error; when Get does not
+     watch the end of the data it decodes ([tracks] = Gen/FactsStartup.v store_get_decodes_from_eof_tracker is false)
+     its answer is whatever the [lenient] decoder makes of the bytes that are there *)
+  Definition cs_file_decoder (tracks : bool) (strict lenient : list B -> option Msg) : list B -> option Msg :=
+    if tracks then strict else lenient.
+
+  (* the cache entry the step model sees for a file: a file Get rejects counts as no entry (State.getLiteral then
+     downloads the message again, the start-up sweep / the next Set replace the file) *)
+  Definition cs_file_view (get : list B -> option Msg) (file : option (list B)) : option Msg :=
+    match file with Some f => get f | None => None end.
+End SetWrites.
